@@ -216,6 +216,21 @@ def run(ctx):
                     writes = [j for j in region for s in b.stmts(j) if s["k"] == "assign" and s["lhs"]["l"] == 1 and s["lhs"].get("p")]
                     calls = [j for j in region if b.term(j)["k"] == "call"]
                     okid = not writes and not calls
+            # the same test written with is_none() / is_some(): nothing is written on the side where a span is stored
+            for c in b.calls():
+                if c.name in ("is_none", "is_some") and c.args and any(x[0] == "arg" and x[1] == 1 and x[2] and x[2][0] in span_fields for x in prb.operand(c.args[0])):
+                    for sw_, tg_, oth_ in switch_on_call_result(b, c):
+                        t_true, t_false = tg_.get(1, oth_ if 0 in tg_ else None), tg_.get(0, oth_ if 1 in tg_ else None)
+                        some_t, none_t = (t_false, t_true) if c.name == "is_none" else (t_true, t_false)
+                        if some_t is None or none_t is None:
+                            continue
+                        region = b.reachable(some_t, avoid=[sw_]) - b.reachable(none_t, avoid=[sw_])
+                        only_none = b.reachable(none_t, avoid=[sw_]) - b.reachable(some_t, avoid=[sw_])
+                        wr = lambda blocks: [j for j in blocks for s_ in b.stmts(j) if s_["k"] == "assign" and s_["lhs"]["l"] == 1 and s_["lhs"].get("p")]
+                        # writes to self happen only on the `nothing stored yet` side
+                        all_writes = wr(b.live_blocks())
+                        if all_writes and all(j in only_none for j in all_writes) and not [j for j in region if b.term(j)["k"] == "call"]:
+                            okid = True
             ctx.check(okid or helper_id, "R18.1", key + "#stop-idempotent", loc(b), "a stored span is not returned unchanged (repeated stops would change the result)")
         b = ops.get((role, "drop"))
         if b:
@@ -292,6 +307,17 @@ def run(ctx):
                                                                                 if s_["k"] == "assign" and s_["rv"]["k"] == "use" for o in [s_["rv"]["op"]])
         somes = any(s["k"] == "assign" and s["rv"]["k"] == "agg" and s["rv"].get("variant") == "Some" for i in b.live_blocks() for s in b.stmts(i))
         delegating = any(c.name == "add_assign" for c in b.calls())
+        # ... or to a private helper of the crate that is `*slot = Some(slot.unwrap_or_default() + d)` itself
+        for c in b.calls():
+            for hb in local_callee_bodies(F, c):
+                if hb.crate != MQ or hb.kind == "Closure" or hb.def_ == b.def_:
+                    continue
+                hn = {x.name for x in hb.calls()}
+                h_sum = any(x.name == "add" and "Duration" in (x.self_ty or "") for x in hb.calls())
+                h_uod = bool(hn & {"unwrap_or_default", "unwrap_or", "default"})
+                h_some = any(s_["k"] == "assign" and s_["rv"]["k"] == "agg" and s_["rv"].get("variant") == "Some" for i_ in hb.live_blocks() for s_ in hb.stmts(i_))
+                if h_sum and h_uod and h_some:
+                    delegating = True
         sums[b.path] = (has_sum, uod, somes, delegating)
         ctx.check((has_sum and uod and somes) or delegating, "R18.1", fnkey(b) + "#some(prev-or-zero+d)", loc(b), "add_assign is not Some(prev.unwrap_or_default() + d): %s" % sorted(names))
     # ------------------------------------------------------------------ R18.2 sibling agreement
